@@ -29,7 +29,7 @@ def build(tier, seed):
                           H('formatter_none_writes_tokens', timeout=900, desc='formatter = none', sample='Formatter::None'),
                           H('formatter_prettyplease_writes_unparsed', timeout=900, desc='formatter = prettyplease', sample='Formatter::Prettyplease')]
         kern.encoded = [enc('lib.rs', 'Bindings::write', w), enc('lib.rs', 'Bindings::rustfmt_path', rp), enc('lib.rs', 'Bindings::format_tokens', ft)]
-        kern.stubs = ['std::process::{Command, Child, ChildStdin, ChildStdout, Stdio}: scripted child (symbolic Script)', 'io::{Write, Read, copy}: byte-wise traits with the same method names; io::copy = plain read/write loop',
+        kern.stubs = ['std::process::{Command, Child, ChildStdin, ChildStdout, Stdio}: scripted child (symbolic Script)', 'io::{Write, Read, copy}: byte-wise traits with the same method names; io::copy = plain read/write loop', 'io::Error / ErrorKind: plain value type (kind only; cheap Debug) instead of the bit-packed std type',
                       'rewrite: ::std::thread::spawn -> verif_thread::spawn (runs the closure synchronously, join() returns its result)', 'proc_macro2::TokenStream::to_string() = "M"; prettyplease::unparse = "P"; header comment write! = "H"',
                       'env::var("RUSTFMT"): nondeterministic', 'eprintln!/format!/warn!/debug_assert!: no-ops', 'ExitStatus: the real std type via ExitStatusExt::from_raw(any i32)', '-Z stubbing: core::result::unwrap_failed -> plain panic (skips the {:?} formatting of the error)']
         kern.assumptions = ['the writer thread cannot run concurrently with the reader (synchronous stub): orderings and deadlocks are outside the model', 'formatter output <= 2 bytes']
